@@ -553,7 +553,7 @@ func CheckC03(run *evid.Run) {
 			o2.Failures = i%2 == 1
 			o2.Extra = i%4 == 2 // rebuilds from storage, identity changes
 			o2.Hostile = !o2.Extra
-			o2.Bursts = i%3 == 0 // appends || merges into the same replica: afterwards every held entry is in the view
+			o2.Bursts = i%3 == 0    // appends || merges into the same replica: afterwards every held entry is in the view
 			o2.Truncated = i%5 == 4 // merges from length-limited loads: logs with gaps (an entry's predecessor is not held)
 			h = hx.Gen(run.Seed, i, o2)
 		} else {
